@@ -4,13 +4,16 @@
 #![allow(dead_code)]
 mod common;
 mod rnum;
+mod c05;
 mod c09;
+mod sut;
 
 use common::*;
 
 macro_rules! dispatch {
     ($id:expr, $f:ident, $($arg:expr),*) => {
         match $id {
+            "C05" => $f::<c05::C05>($($arg),*),
             "C09" => $f::<c09::C09>($($arg),*),
             other => {
                 eprintln!("unknown property id {}", other);
